@@ -1014,6 +1014,16 @@ func (ex *Exec) run(fr *Frame) Value {
 			case *ssa.If:
 				c := ex.term(fr, in.Cond)
 				if c.Op != OConst {
+					// settled by the interval domain (facts of the path condition): no region to merge
+					if d := ex.decide(c); d >= 0 {
+						ex.stats.Filtered++
+						if d == 1 {
+							next = block.Succs[0]
+						} else {
+							next = block.Succs[1]
+						}
+						break
+					}
 					if j, ret, isRet, ok := ex.tryMerge(fr, block, in, c); ok {
 						ex.stats.Merged++
 						if isRet {
